@@ -1,0 +1,22 @@
+//go:build verif
+
+package file
+
+// Verification hooks (build tag verif). VerifSched is called at named schedule points, VerifEvent at
+// named events; both may be nil.
+var (
+	VerifSched func(point string)
+	VerifEvent func(event string)
+)
+
+func verifSched(point string) {
+	if f := VerifSched; f != nil {
+		f(point)
+	}
+}
+
+func verifEvent(event string) {
+	if f := VerifEvent; f != nil {
+		f(event)
+	}
+}
